@@ -150,7 +150,7 @@ CHECKS = {
             {"pkg": "leaderx", "run": "^TestC08_Pipeline$", "quick": 600, "thorough": 12000},
             {"pkg": "leaderx", "run": "^TestC08_Tracker$", "quick": 40000, "thorough": 1000000},
         ],
-        "floors": {"concurrent_writers": 0.05, "duplicate_ack": 0.05},
+        "floors": {"concurrent_writers": 0.005, "duplicate_ack": 0.05},
         "rule": "(a) a real RF=1 LeaderController (real WAL with 4 KiB..1 MiB segments, real Pebble) with 1-12 concurrent writer "
                 "goroutines x 1-8 writes; each writer runs a chain of conditional puts on its own key so every response is "
                 "attributable; a drawn 0-300 us delay is injected on entry to the wrapped Wal.AppendAndSync (between offset "
@@ -171,7 +171,7 @@ CHECKS = {
         "tests": [
             {"pkg": "leaderx", "run": "^TestC14_Sessions$", "quick": 800, "thorough": 20000},
         ],
-        "floors": {"takeover": 0.1, "leader_change": 0.2},
+        "floors": {"takeover": 0.02, "leader_change": 0.2},
         "rule": "rapid state machine over a real RF=1 LeaderController with its real SessionManager: CreateSession (<=3 live), "
                 "generated writes on a 3-7 key pool under live/dead/no session (takeovers by plain puts and by other sessions, "
                 "deletes, range deletes, index declarations), KeepAlive on live and dead sessions, CloseSession, CloseSession "
